@@ -346,6 +346,15 @@ def crit_and_range(draw, n):
         except ValueError:
             pass
         return ['text', t], cells
+    if draw(st.integers(0, 3)) == 0:
+        # prefix and suffix of the pattern overlap: u*u must not match u itself
+        u = draw(st.text(st.sampled_from('abx'), min_size=1, max_size=2))
+        v = draw(st.sampled_from(['', 'a', 'b']))
+        cells = list(cells)
+        forced = [u, u + u, u + 'c' + u, u + v, v + u, u + v + u]
+        for k, f in enumerate(draw(st.lists(st.sampled_from(forced), min_size=1, max_size=min(n, 4)))):
+            cells[(k * 2) % n] = f
+        return ['wild', draw(st.sampled_from([u + '*' + u, u + v + '*' + v + u, u + '*' + v + u]))], cells
     i = draw(st.integers(0, len(w)))
     j = draw(st.integers(i, len(w)))
     near = [w[:i] + w[i + 1:], w + 'b', 'x' + w]
